@@ -227,6 +227,16 @@ def btMasked (co : ChanCoef) (is3b : Bool) (tBB cS cBB cE : α) : Option α :=
   let bt := if is3b && le cS cE then r 0 else bt0
   if lt bt (r 170) || lt (r 350) bt then none
   else if le (r 170) bt && le bt (r 350) then some bt else none   -- NaN compares false
+
+/-- one line of the output array: the per-pixel formula mapped over the line's counts with the
+line's smoothed telemetry -/
+def calLine (co : ChanCoef) (is3b : Bool) (tBB cS cBB : α) (cs : List α) : List (Option α) :=
+  cs.map (btMasked co is3b tBB cS cBB)
+
+/-- the whole output array: line i uses telemetry row i (`(tBB, cBB, cS)`) and count row i -/
+def calArray (co : ChanCoef) (is3b : Bool) (tele : List (α × α × α)) (counts : List (List α)) :
+    List (List (Option α)) :=
+  List.zipWith (fun p cs => calLine co is3b p.1 p.2.2 p.2.1 cs) tele counts
 end
 
 end PygacModel.Thermal
